@@ -626,7 +626,7 @@ func (c *Collection) setLastCas(txn *sql.Tx, cas CAS) (err error) {
 // document being modified. The function returns an event to be posted.
 func (c *Collection) withNewCas(fn func(txn *sql.Tx, newCas CAS) (*event, error)) error {
 	var e *event
-	err := c.bucket.inTransaction(func(txn *sql.Tx) error {
+	err := c.bucket.inTransactionThen(func(txn *sql.Tx) error {
 		newCas := uint64(hlc.Now())
 		var err error
 		e, err = fn(txn, newCas)
@@ -634,9 +634,14 @@ func (c *Collection) withNewCas(fn func(txn *sql.Tx, newCas CAS) (*event, error)
 			return err
 		}
 		return c.setLastCas(txn, newCas)
+	}, func() {
+		// Still holding the bucket mutex: feeds receive events in commit (= CAS) order.
+		if e != nil {
+			c._postNewEvent(e)
+		}
 	})
 	if err == nil && e != nil {
-		c.postNewEvent(e)
+		c.bucket.expManager.scheduleExpirationAtOrBefore(e.exp)
 	}
 	return err
 }
